@@ -134,6 +134,18 @@ static int divmemo(u64 a, u64 b) {
 }
 u64 __verif_udiv64(u64 a, u64 b) { int i = divmemo(a, b); return i >= 0 ? dm_q[i] : a / b; }
 u64 __verif_urem64(u64 a, u64 b) { int i = divmemo(a, b); return i >= 0 ? dm_r[i] : a % b; }
+static u32 sd_a[MEMO_SLOTS], sd_b[MEMO_SLOTS], sd_q[MEMO_SLOTS], sd_r[MEMO_SLOTS]; static int sd_n = 0;
+static int sdivmemo(u32 a, u32 b) {   /* C semantics of int32 division (truncation); INT_MIN / -1 wraps */
+  for (int i = 0; i < MEMO_SLOTS; i++) if (i < sd_n && a == sd_a[i] && b == sd_b[i]) return i;
+  if (sd_n < MEMO_SLOTS) { sd_a[sd_n] = a; sd_b[sd_n] = b;
+    if (a == 0x80000000u && b == 0xffffffffu) { sd_q[sd_n] = a; sd_r[sd_n] = 0; }
+    else { sd_q[sd_n] = (u32)((int32_t)a / (int32_t)b); sd_r[sd_n] = a - sd_q[sd_n] * b; }
+    return sd_n++; }
+  __verif_memo_miss++;
+  return -1;
+}
+u32 __verif_sdiv32(u32 a, u32 b) { int i = sdivmemo(a, b); return i >= 0 ? sd_q[i] : (u32)((int32_t)a / (int32_t)b); }
+u32 __verif_srem32(u32 a, u32 b) { int i = sdivmemo(a, b); return i >= 0 ? sd_r[i] : (u32)((int32_t)a % (int32_t)b); }
 u32 __verif_udiv32(u32 a, u32 b) { return (u32)__verif_udiv64(a, b); }
 u32 __verif_urem32(u32 a, u32 b) { return (u32)__verif_urem64(a, b); }
 #else
@@ -144,6 +156,8 @@ u32 __verif_mul32(u32 a, u32 b) { return a * b; }
 u64 __verif_udiv64(u64 a, u64 b) { return a / b; }
 u64 __verif_urem64(u64 a, u64 b) { return a % b; }
 u32 __verif_udiv32(u32 a, u32 b) { return a / b; }
+u32 __verif_sdiv32(u32 a, u32 b) { return (a == 0x80000000u && b == 0xffffffffu) ? a : (u32)((int32_t)a / (int32_t)b); }
+u32 __verif_srem32(u32 a, u32 b) { return (a == 0x80000000u && b == 0xffffffffu) ? 0 : (u32)((int32_t)a % (int32_t)b); }
 u32 __verif_urem32(u32 a, u32 b) { return a % b; }
 #endif
 
